@@ -13,11 +13,24 @@ Shape dict keys
                ns=<series count>, vk=<value kind>, optional names=[...] (explicit series names)
   xy/bubble:   lens=[points per series], vk=<value kind>
   optional number formats: nf (chart data level), snf (first series), cnf (categories)
+  optional via=<how the flat categories get into the chart-data object> (VIA_KINDS; default: add_category calls)
 
 Label kinds: str, int (small), float (short), int_wide / float_wide (numbers that need 7..17 significant
 digits: yyyymmdd-style keys, 10^6+1, 2^31, 12-digit counts, 8-digit fractions, 0.1+0.2; every one prints
 without an exponent), date_pre (before 1900-03-01 for n<=3; n=300 crosses the phantom leap day),
-date_post (1900-03-01 and later), datetime (midnight), datetime_noon (C08 only).
+date_post (1900-03-01 and later), datetime (midnight), datetime_noon (C08 only), and the NUM_TYPES below.
+
+Numeric TYPE alphabet (NUM_TYPES; as a value kind `vk` and as a label kind `lab`): numbers that are neither a
+plain int nor a plain float — int_sub (a bare subclass of int), float_sub (a bare subclass of float), decimal
+(decimal.Decimal in plain notation, one with a trailing zero), fraction (fractions.Fraction with denominator 1).
+As a value kind every third point is None; for XY/bubble shapes X values and bubble sizes are of the type too.
+Membership rule: a numeric type belongs to the alphabet when str() of its members is a plain decimal numeral —
+that is what "the decimal text of the number" can mean and what the unchanged library handles.
+VALUE_ONLY_NUM_TYPES: fraction_ratio (Fraction(5,2), Fraction(-1,3), Fraction(7,4), ...) — a number in the sense of
+the statement (central triage decision), enumerated as series values and XY/bubble X, Y, size, NOT as labels. The
+unchanged library writes c:v '5/2' for it and its own reader raises ValueError: that is REPORTED (signatures carry
+`value-type=fraction_ratio`). Probed on the unchanged library and left OUT of the domain: bool (c:v 'True'),
+Decimal in exponent notation ('1E+2': "decimal text" is ambiguous).
 'slen' = per-series point counts of a category shape when they differ from the leaf count (RAGGED data:
 empty / shorter / equal / longer series next to each other, see ragged_shapes).
 `None` labels are NOT enumerated: `add_category` documents "a string, a number, a datetime.date, or
@@ -27,6 +40,8 @@ datetime.datetime object" only.
 from __future__ import annotations
 
 import datetime
+import decimal
+import fractions
 import itertools
 
 STR_POOL = ["West", "a&b <c>", "Ünï ©", " lead", "x'\"y", "日本"]
@@ -34,7 +49,57 @@ NAME_POOL = ["Series 1", "S&P <500>", "Ünï © 3"]
 FLOATS = [1.5, 1e-07, -0.0, -2.25, 123456789.125, 1e+20]
 
 LABEL_KINDS = ["str", "int", "float", "int_wide", "float_wide", "date_pre", "date_post", "datetime"]
-NUMERIC_LABEL_KINDS = ("int", "float", "int_wide", "float_wide")
+
+
+class IntSub(int):
+    """A bare subclass of int: a legal number that is not `type(x) is int`."""
+
+
+class FloatSub(float):
+    """A bare subclass of float."""
+
+
+# numbers that are neither a plain int nor a plain float; str() of every member is a plain decimal numeral
+NUM_TYPES = ["int_sub", "float_sub", "decimal", "fraction"]
+_NUM_TABLE = {
+    "int_sub": [3, -2, 0, 1000001, 41],
+    "float_sub": [2.5, -0.125, 1234.5678, 0.1 + 0.2, 7.0],
+    "decimal": ["10.25", "-3", "0.10", "1234567.891", "0.125"],
+    "fraction": [7, -2, 0, 1000001, 12],
+    "fraction_ratio": [(5, 2), (-1, 3), (7, 4), (1, 8), (22, 7)],
+}
+# numeric types enumerated in the VALUE role only (series values, XY/bubble X, Y, size), never as category labels:
+# a Fraction with a denominator is a number (central triage decision), but "the decimal text of the number" is not
+# defined for a label that has no finite decimal expansion
+VALUE_ONLY_NUM_TYPES = ["fraction_ratio"]
+VALUE_NUM_TYPES = NUM_TYPES + VALUE_ONLY_NUM_TYPES
+NUMERIC_LABEL_KINDS = ("int", "float", "int_wide", "float_wide") + tuple(NUM_TYPES)
+
+
+def typed_number(t, k):
+    """k-th number of numeric type t: the table entry k mod 5, shifted by k // 5 (so labels stay distinct)."""
+    base, shift = _NUM_TABLE[t][k % 5], k // 5
+    if t == "int_sub":
+        return IntSub(base + shift)
+    if t == "float_sub":
+        return FloatSub(base + shift)
+    if t == "decimal":
+        return decimal.Decimal(base) + shift
+    if t == "fraction":
+        return fractions.Fraction(base + shift, 1)
+    if t == "fraction_ratio":
+        return fractions.Fraction(base[0], base[1]) + shift
+    raise ValueError(t)
+
+
+def value_type(spec):
+    """The numeric type of the shape's values when it is one of the typed value kinds, else None."""
+    return spec["vk"] if spec.get("vk") in VALUE_NUM_TYPES else None
+
+
+# how flat category labels get into a CategoryChartData object (default: one add_category call per label)
+VIA_KINDS = ["assign", "assign_twice", "assign_over_other", "add_then_assign", "assign_over_tree", "assign_after_series"]
+DRAFT_LABELS = ["draft 1", "draft 2"]
 # numeric labels whose shortest exact decimal text needs 7..17 significant digits (none prints with an exponent)
 WIDE_INTS = [20240131, 1000001, 86400001, -1234567, 2147483648, 999999999999]
 WIDE_FLOATS = [1234.5678, 0.12345678, -98765.4321, 123456789.125, 0.1 + 0.2, 1.0000001]
@@ -89,6 +154,8 @@ def label_for(kind, i):
         return datetime.datetime(2016, 12, 27, 0, 0, 0) + datetime.timedelta(days=i)
     if kind == "datetime_noon":
         return datetime.datetime(2016, 12, 27, 12, 0, 0) + datetime.timedelta(days=i)
+    if kind in NUM_TYPES:
+        return typed_number(kind, i)
     raise ValueError(kind)
 
 
@@ -216,6 +283,8 @@ def value_for(vk, s, i):
         if r == 2:
             return None
         return -(i + 0.25)
+    if vk in VALUE_NUM_TYPES:
+        return None if (i + s) % 3 == 2 else typed_number(vk, s + 2 * i)
     raise ValueError(vk)
 
 
@@ -315,10 +384,11 @@ def model(spec, date1904=False) -> Model:
     else:
         for s, ln in enumerate(spec["lens"]):
             m.names.append(series_name(spec, s))
-            m.xs.append([s * 10 + i * 0.5 for i in range(ln)])
-            m.values.append([value_for(spec["vk"], s, i) for i in range(ln)])
+            pts = [_xy_point(spec, s, i) for i in range(ln)]
+            m.xs.append([p[0] for p in pts])
+            m.values.append([p[1] for p in pts])
             if spec["k"] == "bubble":
-                m.sizes.append([(i % 4) + 1 + 0.5 * s for i in range(ln)])
+                m.sizes.append([p[2] for p in pts])
     return m
 
 
@@ -336,13 +406,38 @@ def build(spec):
             for lab in spec["labels"]:
                 cd.add_category(lab)
         else:
-            for i in range(spec["n"]):
-                cd.add_category(label_for(spec["lab"], i))
+            via = spec.get("via", "add_category")
+            labs = [label_for(spec["lab"], i) for i in range(spec["n"])]
+            if via == "add_category":
+                for lab in labs:
+                    cd.add_category(lab)
+            elif via == "assign":                 # any iterable: here a generator
+                cd.categories = (lab for lab in labs)
+            elif via == "assign_twice":           # the second assignment is a no-op
+                cd.categories = list(labs)
+                cd.categories = tuple(labs)
+            elif via == "assign_over_other":      # other labels (strings, other count) assigned first
+                cd.categories = list(DRAFT_LABELS)
+                cd.categories = list(labs)
+            elif via == "add_then_assign":        # assignment wins over an earlier add_category
+                cd.add_category(DRAFT_LABELS[0])
+                cd.categories = list(labs)
+            elif via == "assign_over_tree":       # a two-level hierarchy replaced by flat labels
+                top = cd.add_category(DRAFT_LABELS[0])
+                top.add_sub_category("draft 1.1")
+                top.add_sub_category("draft 1.2")
+                cd.categories = list(labs)
+            elif via == "assign_after_series":    # series first, categories assigned afterwards
+                pass
+            else:
+                raise ValueError("via=%r is not a construction path" % (via,))
         if spec.get("cnf") is not None:
             cd.categories.number_format = spec["cnf"]
         for s in range(spec["ns"]):
             vals = [value_for(spec["vk"], s, i) for i in range(series_len(spec, s))]
             cd.add_series(series_name(spec, s), vals, spec.get("snf") if s == 0 else None)
+        if spec.get("via") == "assign_after_series":
+            cd.categories = [label_for(spec["lab"], i) for i in range(spec["n"])]
         return cd
     cls = XyChartData if spec["k"] == "xy" else BubbleChartData
     cd = cls(**kw)
@@ -354,16 +449,25 @@ def build(spec):
 
 
 def _xy_point(spec, s, i):
-    x, y = s * 10 + i * 0.5, value_for(spec["vk"], s, i)
-    return (x, y) if spec["k"] == "xy" else (x, y, (i % 4) + 1 + 0.5 * s)
+    """(x, y[, size]) of point i of series s; for a typed value kind X and size are of that type as well."""
+    vk = spec["vk"]
+    y = value_for(vk, s, i)
+    if vk in VALUE_NUM_TYPES:
+        x, size = typed_number(vk, 2 * s + i), typed_number(vk, 5 * (i % 3 + 1))
+    else:
+        x, size = s * 10 + i * 0.5, (i % 4) + 1 + 0.5 * s
+    return (x, y) if spec["k"] == "xy" else (x, y, size)
 
 
 # ---- one chart-data object used twice: (before, after) shape pairs and the delta between them --------------
 
 def reuse_pairs(kind):
     """[(mutation name, shape before, shape after)]: `after` is what the SAME chart-data object holds once
-    `apply_delta` has grown it through the documented API (add_category / add_sub_category / add_series /
-    add_data_point). XY/bubble: every series position (first, middle, last) of 2- and 3-series data grows."""
+    `apply_delta` has changed it through the documented API (add_category / add_sub_category / add_series /
+    add_data_point; `categories = [...]` re-assignment when `after` says via="reassign": same labels, more
+    labels with points added, fewer labels — the points stay, so the data is ragged —, numeric labels over
+    strings, flat labels over a two-level hierarchy). XY/bubble: every series position (first, middle, last)
+    of 2- and 3-series data grows."""
     if kind == "cat":
         flat = {"k": "cat", "labels": ["North", "East", "South"], "ns": 2, "vk": "float"}
         tree = {"k": "cat", "tree": [[[], []], [[]]], "ns": 2, "vk": "float"}
@@ -373,6 +477,12 @@ def reuse_pairs(kind):
             ("add_sub_category", tree, dict(tree, tree=[[[], []], [[], [], []]])),
             ("add_series", flat, dict(flat, ns=3)),
             ("add_data_point", dict(flat, slen=[3, 1]), dict(flat, slen=[3, 3])),
+            # `cd.categories = [...]` on an object that already HAS categories (and series): assignment replaces
+            ("assign_same_categories", flat, dict(flat, via="reassign")),
+            ("assign_more_categories", flat, dict(flat, labels=["Spring", "Summer", "Autumn", "Winter", "a&b <c>"], via="reassign")),
+            ("assign_fewer_categories", flat, dict(flat, labels=["First half", "Second half"], slen=[3, 3], via="reassign")),
+            ("assign_numeric_categories", flat, {"k": "cat", "lab": "float", "n": 3, "ns": 2, "vk": "float", "via": "reassign"}),
+            ("assign_flat_over_tree", tree, dict(flat, via="reassign")),
         ]
     two = {"k": kind, "lens": [2, 3], "vk": "float"}
     three = {"k": kind, "lens": [2, 3, 1], "vk": "float"}
@@ -387,7 +497,8 @@ def reuse_pairs(kind):
 
 
 def apply_delta(cd, before, after):
-    """Grow the live chart-data object `cd` (built from `before`) to `after` through its documented API."""
+    """Change the live chart-data object `cd` (built from `before`) to `after` through its documented API: the
+    categories are re-assigned (`cd.categories = [...]`) when after["via"] == "reassign", else grown."""
     if before["k"] != after["k"] or before["vk"] != after["vk"]:
         raise ValueError("delta must keep kind and value kind")
     if before["k"] != "cat":
@@ -402,7 +513,12 @@ def apply_delta(cd, before, after):
                 ser.add_data_point(*_xy_point(after, s, i))
         return
     # categories first
-    if "tree" in after:
+    if after.get("via") == "reassign":
+        if "tree" in after:
+            raise ValueError("only flat labels can be assigned")
+        na = leaf_count(after)
+        cd.categories = list(after["labels"]) if "labels" in after else [label_for(after["lab"], i) for i in range(na)]
+    elif "tree" in after:
         fb, fa = before["tree"], after["tree"]
         depth, levels, _ = _tree_model(fa)
         if depth != 2 or forest_depth(fb) != 2:
@@ -469,19 +585,67 @@ REPLACE_BASE = {"k": "cat", "lab": "str", "n": 2, "ns": 1, "vk": "int"}
 WIDE_REPLACE_COUNTS = [1, 7]  # 7 labels walk through the whole 6-member alphabet and wrap once
 
 
-def replace_extra_shapes(kind, thorough):
-    """Data given to ONE replace_data on a chart created from REPLACE_BASE (1 series: the first new series
-    re-uses the surviving c:ser, a second/third one is cloned), beyond the six history shapes: every ragged
-    shape and the wide numeric label kinds. Returns (list of specs, closed-form size). Empty for XY/bubble
-    (their series lengths are independent anyway and are enumerated by the creation/history shapes)."""
+def replace_base(kind):
+    """The one-series chart on which the replace_extra_shapes are applied."""
+    return REPLACE_BASE if kind == "cat" else {"k": kind, "lens": [2], "vk": "int"}
+
+
+TYPED_LABEL_COUNTS = [1, 6]  # 6 labels walk through the whole 5-member table and wrap once
+TYPED_VALUE_SERIES = [1, 2]
+
+
+def typed_number_shapes(kind):
+    """Every numeric type of NUM_TYPES in every role a number can have, and every type of VALUE_ONLY_NUM_TYPES in
+    the value roles (series values; XY/bubble X, Y, size). Returns (specs, closed-form size).
+      cat:        as series values (1 series — all a pie chart shows — and 2 series, 3 string categories) |
+                  as category labels x {1,6} categories | as values AND labels       -> 5 shapes per type
+      xy/bubble:  X, Y (and size) of the type, series lengths [3,2] | [1]           -> 2 shapes per type"""
+    out = []
+    for t in VALUE_NUM_TYPES:
+        labels_too = t in NUM_TYPES
+        if kind == "cat":
+            for ns in TYPED_VALUE_SERIES:
+                out.append({"k": "cat", "lab": "str", "n": 3, "ns": ns, "vk": t})
+            if labels_too:
+                for n in TYPED_LABEL_COUNTS:
+                    out.append({"k": "cat", "lab": t, "n": n, "ns": 1, "vk": "mixed"})
+                out.append({"k": "cat", "lab": t, "n": 3, "ns": 2, "vk": t})
+        else:
+            out.append({"k": kind, "lens": [3, 2], "vk": t})
+            out.append({"k": kind, "lens": [1], "vk": t})
     if kind != "cat":
-        return [], 0
+        return out, 2 * len(VALUE_NUM_TYPES)
+    return out, (len(NUM_TYPES) * (1 + len(TYPED_VALUE_SERIES) + len(TYPED_LABEL_COUNTS))
+                 + len(VALUE_ONLY_NUM_TYPES) * len(TYPED_VALUE_SERIES))
+
+
+VIA_LABEL_KINDS = ["str", "float", "date_post"]  # one per category cache kind: strRef, numRef, numRef with dates
+
+
+def via_shapes():
+    """Flat categories put into the chart-data object by `categories = <iterable>` instead of add_category calls:
+    every construction path of VIA_KINDS x one label kind per cache kind; one series (what every chart type,
+    pie included, reports in full). Returns (specs, closed-form size)."""
+    out = [{"k": "cat", "lab": lab, "n": 3, "ns": 1, "vk": "mixed", "via": via} for via in VIA_KINDS for lab in VIA_LABEL_KINDS]
+    return out, len(VIA_KINDS) * len(VIA_LABEL_KINDS)
+
+
+def replace_extra_shapes(kind, thorough):
+    """Data given to ONE replace_data on a chart created from replace_base(kind) (1 series: the first new series
+    re-uses the surviving c:ser, a second/third one is cloned), beyond the six history shapes: every ragged
+    shape, the wide numeric label kinds, the numeric TYPE alphabet in every role (typed_number_shapes) and every
+    category construction path (via_shapes). Returns (list of specs, closed-form size). XY/bubble: the typed
+    shapes only (their series lengths are independent anyway: creation/history shapes enumerate them)."""
+    typed, typed_size = typed_number_shapes(kind)
+    if kind != "cat":
+        return list(typed), typed_size
     out, size = ragged_shapes(thorough)
     out = list(out)
     for lab in ("int_wide", "float_wide"):
         for n in WIDE_REPLACE_COUNTS:
             out.append({"k": "cat", "lab": lab, "n": n, "ns": 2, "vk": "float"})
-    return out, size + 2 * len(WIDE_REPLACE_COUNTS)
+    via, via_size = via_shapes()
+    return out + list(typed) + list(via), size + 2 * len(WIDE_REPLACE_COUNTS) + typed_size + via_size
 
 
 def series_counts(thorough, allow_zero=True):
@@ -527,6 +691,14 @@ def creation_shapes(kind, thorough, allow_zero=True):
         rag, rag_size = ragged_shapes(thorough)
         out.extend(rag)
         size += rag_size
+        # G. the numeric TYPE alphabet as values, as labels, as both
+        typed, typed_size = typed_number_shapes("cat")
+        out.extend(typed)
+        size += typed_size
+        # H. categories assigned (`categories = iterable`) instead of added one by one
+        via, via_size = via_shapes()
+        out.extend(via)
+        size += via_size
         return out, size
     # xy / bubble
     sc = series_counts(thorough, allow_zero)
@@ -543,6 +715,9 @@ def creation_shapes(kind, thorough, allow_zero=True):
         out.append({"k": kind, "lens": [2, 2], "vk": "float", "nf": nf})
         out.append({"k": kind, "lens": [2, 2], "vk": "float", "snf": nf})
     size += len(NUMBER_FORMATS) * 2
+    typed, typed_size = typed_number_shapes(kind)
+    out.extend(typed)
+    size += typed_size
     return out, size
 
 
